@@ -799,9 +799,34 @@ def gen_mj_seats(rng, count):
     removal sequences agree on a long prefix: many removal rounds, multi-copy steps, several seats decided by the same
     loop, exact copies (unbreakable ties) included"""
     for _ in range(count):
-        kind = rng.choice(['level', 'level', 'columns', 'columns', 'columns'])
+        kind = rng.choice(['level', 'level', 'columns', 'columns', 'columns', 'uneven', 'uneven', 'uneven'])
         cfg = dict(fn='median_low', unscored='none', min_count=0, trunc='0', bottom='0')
-        if kind == 'level':
+        if kind == 'uneven':
+            # partial ballots with sizeable counts: the candidates level on the median were graded by DIFFERENT numbers of
+            # voters.  Column of a candidate: a grades below, k copies of the common median grade, c grades above; with lower
+            # medians the median leaves the common grade upwards once at most c - a - 1 copies are left (downwards: a - c),
+            # i.e. after r = k - |c - a| (+1) removals.  r is drawn per candidate, so the round at which a median moves differs
+            # from candidate to candidate while the loop removes several copies per round.
+            m = rng.randint(2, 4)
+            g = rng.choice([3, 4, 5])
+            mid = rng.randint(1, g - 1)
+            rows = {}
+            bigs = rng.sample(range(1, m + 1), rng.randint(1, max(1, m - 1)))      # graded by many more voters than the others
+            for cc in range(1, m + 1):
+                a = rng.randint(8, 30) if cc in bigs else rng.randint(0, 5)
+                diff = rng.randint(0, 6)
+                r = rng.randint(1, 6)
+                up = rng.random() < 0.7
+                lo_n, hi_n = (a, a + diff + 1) if up else (a + diff, a)
+                col = {rng.randint(0, mid - 1): lo_n, mid: diff + r, rng.randint(mid + 1, g): hi_n}
+                for grade, cnt in col.items():
+                    if cnt:
+                        rows[((cc, grade),)] = cnt
+            if rng.random() < 0.2:      # a few ballots grading two candidates at once
+                cs = sorted(rng.sample(range(1, m + 1), 2))
+                b = tuple((cc, mid) for cc in cs)
+                rows[b] = rows.get(b, 0) + rng.randint(1, 4)
+        elif kind == 'level':
             m = rng.randint(3, 5)
             g = rng.choice([1, 2, 2, 3])
             full = rng.random() < 0.6
@@ -834,7 +859,8 @@ def gen_mj_seats(rng, count):
                 rows[b] = rows.get(b, 0) + 1
         votes = [[[list(x) for x in b], w] for b, w in rows.items()]
         mm = len({cc for b, _ in votes for cc, _ in b})
-        yield dict(unit='mj', votes=votes, n=rng.randint(1, mm), cfg=cfg, plus=rng.random() < 0.25)
+        n = 1 if kind == 'uneven' and rng.random() < 0.6 else rng.randint(1, mm)
+        yield dict(unit='mj', votes=votes, n=n, cfg=cfg, plus=rng.random() < (0.1 if kind == 'uneven' else 0.25))
 
 
 def gen_star_seats(rng, count):
